@@ -8,7 +8,7 @@ P = {
  "C01": ("exploration", "property-based testing + bounded exhaustive enumeration + coverage-guided fuzzing (libFuzzer), invariant oracle, both build profiles",
          "Generated and mutated messages, raw bytes, every byte-prefix of generated messages, and ALL strings up to a bounded length over one representative byte per lexical class are executed against generated command trees with handlers that request every typed conversion and iterate list expressions; the oracle is the invariant 'returns, no panic, no internal-parser-error code, every iterator item consumes input'. Run on a build with debug assertions and overflow checks and on a release build. Thorough adds libFuzzer campaigns. Held-on-everything-explored, not absence.",
          "A true hang would surface as a timeout (exit 2), termination is witnessed as 'no more items than input bytes'. Trees and handler plans are those the generators produce (depth <= 4, <= 5 children).", "4/C01"),
- "C02": ("exploration", "property-based testing against a reference path-resolution model (model-based, histories of messages)",
+ "C02": ("exploration", "property-based testing against a reference path-resolution model (model-based, histories of messages) + whole-message differential from bytes (488.2 recogniser + resolver as oracle) incl. bounded-exhaustive token strings per generated tree",
          "Generated command trees (default leaves/branches, anonymous default leaf, numeric-suffix siblings) x generated well-formed multi-unit messages with absolute/relative/common headers in short/long form and any case, plus headers built to designate no node, plus message histories; an independent SCPI-99 6.2 path resolver predicts which handler runs in which form or -113; recorder handlers observe what actually ran.",
          "Trees satisfy SCPI's own precondition that mnemonics visible from one level are pairwise non-matching. Reference resolver written from SCPI-99 6.2.", "4/C02"),
  "C03": ("exploration", "bounded exhaustive enumeration + property-based testing against an independent reference matcher (iff oracle)",
@@ -17,10 +17,10 @@ P = {
  "C04": ("exploration", "grammar-based property testing with by-construction expectations + single-point corruption + bounded exhaustive enumeration judged by an independent 488.2 recogniser + libFuzzer differential",
          "Messages generated from the 488.2 grammar keep their AST, so the expected element sequence and payload byte ranges are known without parsing; the Tokenizer output and the tokens handlers receive must equal it. Each listed corruption applied at one point must yield a command error (-100..-199) after exactly the expected prefix. All strings up to a bounded length over a 19-symbol class alphabet are judged by a hand-written three-valued recogniser.",
          "Exotic 488.2 white space, empty message units, suffixes glued to an exponent-like E and '#' inside expressions are not generated (DESIGN 3.1). One known finding (white space around the exponent marker) is confined to its own sub-campaign.", "4/C04"),
- "C05": ("fault_enumeration", "fault enumeration over generated messages: every unit position x every failure kind x every buffer capacity, recorder handlers as oracle",
+ "C05": ("fault_enumeration", "fault enumeration over generated messages: every unit position x every failure kind x every buffer capacity, recorder handlers as oracle; whole-message differential from bytes (bounded-exhaustive byte and token strings, mutated messages, libFuzzer) with the 488.2 recogniser + resolver as oracle",
          "For each generated base message every position and every failure kind (handler error, arity, type/range, undefined header, lexical corruption, response-buffer exhaustion at every capacity) is enumerated; the call log, the return value and the error-hook log must equal the prediction known by construction.",
          "Formatter failure is injected through ArrayVec capacities (a foreign Formatter cannot be implemented, DESIGN 3.3).", "4/C05"),
- "C06": ("exploration", "property-based testing with by-construction expectations (offered tokens vs AST, arity outcomes)",
+ "C06": ("exploration", "property-based testing with by-construction expectations (offered tokens vs AST, arity outcomes) + bounded-exhaustive token strings x required-pull counts judged from bytes",
          "Units with 0..5 data elements of all seven kinds at every unit position x handler plans pulling 0..6 required/optional parameters; offered tokens must be exactly the unit's own elements, the extra pull must be -109/None, leftovers must give -108 before the next unit runs.",
          "Messages come from the sound 488.2 grammar subset.", "4/C06"),
  "C07": ("exploration", "value-directed property-based testing + exhaustive grids for 8/16-bit targets, exact decimal arithmetic oracle",
@@ -38,7 +38,7 @@ P = {
  "C11": ("fault_enumeration", "differential testing growable vs fixed buffer at every capacity + counting global allocator",
          "Each generated message is run with ArrayVec<u8,CAP> for every CAP from 0 to beyond its response length and compared with the Vec<u8> run: identical bytes or -225, never beyond capacity, never a panic; a counting global allocator asserts zero allocations during Node::run with allocation-free handlers.",
          "Capacities up to 192; allocation claim covers the explored messages and conversions.", "4/C11"),
- "C12": ("exploration", "model-based (stateful) property testing against a VecDeque model",
+ "C12": ("exploration", "model-based (stateful) property testing against a VecDeque model + bounded-exhaustive short operation sequences",
          "Operation sequences on both queue implementations (Vec<Error>, ArrayVec<Error,N> for N in 1..=8) are run in lock-step with a FIFO model with the -350 overflow rule; every return value, the length after every step and the final drain are compared.",
          "Capacities 1..=8 stand for all capacities >= 1.", "4/C12"),
  "C13": ("exploration", "model-based property testing over message histories on the documented minimal device",
@@ -47,16 +47,16 @@ P = {
  "C14": ("exploration", "exhaustive enumeration of all 65536 error numbers + labelled error stream from generated faulty messages",
          "All i16 values through esr_mask (custom and standard) and get_error are compared with a class table transcribed from the property; errors the library raises for faults of known kind must lie in the right class.",
          "No independent list of all standard error numbers is asserted.", "4/C14"),
- "C15": ("exploration", "model-based property testing over histories with a per-bit latch model",
+ "C15": ("exploration", "model-based property testing over histories with a per-bit latch model + bounded-exhaustive per-bit filter / toggle sequences",
          "Histories of condition updates, filter/enable writes, queries, *CLS and STATus:PRESet on both register sets; responses and EventRegister fields compared with a per-bit model after every step.",
          "Device-side updates use the public EventRegister API.", "4/C15"),
- "C16": ("exploration", "model-based property testing over histories of common commands with a 488.2 status model",
+ "C16": ("exploration", "model-based property testing over histories of common commands with a 488.2 status model + exhaustive *ESE x *SRE x ESR-subset grid",
          "Histories over the full minimal device (common commands, status subsystem, failing messages, device events, MAV both ways); *STB? and every register compared with the model after every message.",
          "Summary bit follows the crate's documented condition&enable definition.", "4/C16"),
  "C17": ("exploration", "property-based testing with an executable specification of numeric_value resolution",
          "Keywords and near-misses, boundary and random values, NaN/inf, unit quantities x (min,max,default) configurations including min=max; parse and resolve results compared with the specification and the invariant min <= x <= max.",
          "Underlying numeric conversions are judged by the C07/C08 oracles.", "4/C17"),
- "C18": ("exploration", "property-based testing against an independently written SCPI suffix table",
+ "C18": ("exploration", "property-based testing against an independently written SCPI suffix table + bounded-exhaustive enumeration of every letter string up to 6 (7) characters as a suffix of every quantity",
          "Every defined suffix of every quantity in random case x decimal literals, undefined and near-miss suffixes, Amplitude and Db wrappers; value compared with literal x factor + offset from a hand-written table within 8 ulp.",
          "ANN uses uom's 365-day year; bare temperature is degrees Celsius as the crate declares.", "4/C18"),
  "C19": ("exploration", "grammar-based property testing with by-construction expectations + corruption operators + bounded exhaustive enumeration judged by a list recogniser",
